@@ -60,6 +60,9 @@ struct upipe_ts_decaps {
 
     /** last continuity counter for this PID, or -1 */
     int8_t last_cc;
+    /** true if a discontinuity was noticed on a packet without payload and
+     * has not been reported downstream yet */
+    bool discontinuity;
     /** last TS packet */
     struct uref *last_uref;
 
@@ -96,6 +99,7 @@ static struct upipe *upipe_ts_decaps_alloc(struct upipe_mgr *mgr,
     upipe_ts_decaps_init_urefcount(upipe);
     upipe_ts_decaps_init_output(upipe);
     upipe_ts_decaps->last_cc = -1;
+    upipe_ts_decaps->discontinuity = false;
     upipe_ts_decaps->lost = 0;
     upipe_ts_decaps->last_uref = NULL;
     upipe_throw_ready(upipe);
@@ -128,7 +132,8 @@ static void upipe_ts_decaps_input(struct upipe *upipe, struct uref *uref,
     UBASE_FATAL(upipe, uref_block_peek_unmap(uref, 0, buffer, ts_header))
     UBASE_FATAL(upipe, uref_block_resize(uref, TS_HEADER_SIZE, -1))
 
-    bool discontinuity = upipe_ts_decaps->last_cc == -1;
+    bool discontinuity = upipe_ts_decaps->last_cc == -1 ||
+                         upipe_ts_decaps->discontinuity;
     bool random = false;
     if (unlikely(has_adaptation)) {
         uint8_t *af = buffer + TS_HEADER_SIZE;
@@ -185,6 +190,7 @@ static void upipe_ts_decaps_input(struct upipe *upipe, struct uref *uref,
     if (unlikely(ts_check_duplicate(cc, upipe_ts_decaps->last_cc))) {
         if (!has_payload) {
             /* padding or just PCR */
+            upipe_ts_decaps->discontinuity = discontinuity;
             uref_free(uref);
             return;
         }
@@ -210,9 +216,12 @@ static void upipe_ts_decaps_input(struct upipe *upipe, struct uref *uref,
     upipe_ts_decaps->last_cc = cc;
 
     if (unlikely(!has_payload)) {
+        /* report it with the next payload */
+        upipe_ts_decaps->discontinuity = discontinuity;
         uref_free(uref);
         return;
     }
+    upipe_ts_decaps->discontinuity = false;
 
     if (unlikely(discontinuity))
         uref_flow_set_discontinuity(uref);
